@@ -121,6 +121,10 @@ def gen_token(rng, escapes=True):
         s, v = gen_name(rng, escapes=False)
         if v.lower() in RESERVED_AT or v.lower() == 'charset':
             s = v = v + 'x'
+        if rng.random() < 0.3:
+            # a hex escape ended by a line break inside the keyword (the value of an at-keyword is its source text)
+            c = pick(rng, 'ghijkxyz')
+            s = s + '\\%x%s' % (ord(c), pick(rng, ['\n', '\r\n', ' ', '\t'])) + 'q'
         return dict(type='ATKEYWORD', text='@' + s, value='@' + s)
     if k == 3:
         s, v = gen_name(rng, start=False, escapes=escapes)
@@ -208,7 +212,10 @@ SOUP = list('abcuUrRlL019-+.%#@!*/\\"\'(){}[];:,<>=~|^$ \n\t\r\f?&_eE') + NONASC
 FRAGMENTS = ['/*', '*/', 'url(', '@charset ', '@import', '@media', '@namespace', '@page', '@font-face', '@variables',
              '<!--', '-->', '\\', '\\41 ', '\\000041', '\\\n', 'u+', 'U+0-7F', 'and(', 'AND (', '!important', 'rgb(',
              'var(', 'calc(', 'expression(', 'progid:', '1e3', '.5', '-.5em', '+1', '--x', '-\\-', '"\\"', "'\\'",
-             'a{b:c}', '@x{', '}', '{', ';', '﻿', '\xfe\xff', '\xef\xbb\xbf', ':not(', '::', '|', '*|', '~=']
+             'a{b:c}', '@x{', '}', '{', ';', '@\\6d\nedia', '@\\70\npage ', '@x\\41\n', '@\\69\r\nmport', '"\n"', "'\n'", '"x\n"x', "'a\n;b:'a",
+             '@x "}";', '@x {"}"}', '"{"', '"}"', "'}'", '@charset "hex";', '@charset "idna";',
+             '@charset "undefined";', '@charset "rot13";', '9' * 400 + '.5px', '9' * 5000, 'rgb(' + '9' * 400 + '.5%,1%,1%)', 'calc(', 'calc(calc(1',
+             '1e400', '-' + '9' * 330, '﻿', '\xfe\xff', '\xef\xbb\xbf', ':not(', '::', '|', '*|', '~=']
 
 
 def gen_soup(rng, maxlen=24):
